@@ -27,7 +27,9 @@ Inductive case_C20 :=
   (* extract_to_dir: what the target dir holds before, files_filter, rename_map, members as presented by the zip crate *)
 | CExtract (inside : list (loc * node)) (filter : option (list str)) (rn : list (str * str)) (ms : list member)
   (* extract_archives: glob pattern text, file_names() with Pattern::matches, archive stem with Pattern::matches, members *)
-| CArchives (pattern : str) (entries : list (str * bool)) (stem : str) (stem_matches : bool) (ms : list member).
+  (* reuse: the temp dir of the archive exists already (an earlier call) and holds [inside] *)
+| CArchives (reuse : bool) (inside : list (loc * node)) (pattern : str) (entries : list (str * bool)) (stem : str)
+            (stem_matches : bool) (ms : list member).
 
 Definition o_bytes (l : list N) : otree := T (map L l).
 Definition o_opres (r : opres) : otree :=
@@ -69,9 +71,11 @@ Definition run_C20 (c : case_C20) : otree :=
   match c with
   | CChain datas ops => o_chain (chain_session datas ops)
   | CExtract inside filter rn ms => o_outcome (extract_to_dir (init_fs T0 inside) T0 filter rn ms)
-  | CArchives pattern entries stem sm ms =>
-      match extract_archives (init_fs T0 []) T0 pattern entries stem sm ms with
-      | Some (Failed fs) => T [L 1; T []; T []; ob (outside_untouched fs)]   (* the new temp dir is dropped *)
+  | CArchives reuse inside pattern entries stem sm ms =>
+      match extract_archives (init_fs T0 inside) T0 pattern entries stem sm ms with
+      | Some (Failed fs) =>
+          if reuse then o_outcome (Failed fs)                                (* the reused temp dir keeps what was written *)
+          else T [L 1; T []; T []; ob (outside_untouched fs)]                (* a new temp dir is dropped *)
       | Some o => o_outcome o
       | None => T [L 2; T []; T []; L 1]
       end
